@@ -204,7 +204,8 @@ def direct(ctx, c):
         o = StoredFood(p, types.SimpleNamespace(OG_FRACTION_FAT=0.01, OG_FRACTION_PROTEIN=0.02))
         o.calculate_stored_food_to_use(c["start"])
         return float(o.initial_available.kcals)
-    pct, unt = 100.0, c["untouched"]
+    unt = c["untouched"]
+    pct = float(c["pct"]) if c["pct"] / 100.0 >= unt else 100.0    # the class requires the share to use to be at least the share left untouched
     exp = R.initial_stored_food(dict(zip(R.MONTH_NAMES, c["stocks"])), c["start"], pct, unt, c["dist"])
     sscale = max(c["stocks"]) * 4e6 / 1e9       # the result is a difference of two such terms
     if exp >= TOL * sscale:
@@ -220,12 +221,22 @@ def direct(ctx, c):
 # ---- (b) the real pipeline -----------------------------------------------------------------------------------------
 def e2e(ctx, iso3, options):
     case = dict(kind="e2e", iso3=iso3, options=options)
+    # the grazing series as it is actually handed to the herd simulation
+    from src.food_system import animal_populations as ap
+    handed, orig_init = [], ap.CalculateFeedAndMeat.__init__
+
+    def spy(self, country_code, available_feed, available_grass, *a, **k):
+        handed.append(np.asarray(available_grass.kcals, float).copy())
+        return orig_init(self, country_code, available_feed, available_grass, *a, **k)
+    ap.CalculateFeedAndMeat.__init__ = spy
     try:
         with quiet():
             cp, tcp, out = model.first_round(iso3, options)
     except (AssertionError, SystemExit, Exception) as e:
         model.abort_or_supply_failure(ctx, e, case)
         return
+    finally:
+        ap.CalculateFeedAndMeat.__init__ = orig_init
     consts, tc = out[0], out[1]
     feed_demand, biofuel_demand = out[4], out[5]
     n = cp["NMONTHS"]
@@ -279,6 +290,12 @@ def e2e(ctx, iso3, options):
     with quiet():
         grass = np.asarray(MeatAndDairy(cp).human_inedible_feed.kcals, float)
     wellformed(ctx, "grass", grass, n, case)
+    for g_handed in handed:
+        wellformed(ctx, "grass_handed_to_the_herds", g_handed, n, case)
+        compare(ctx, "grass_handed_to_the_herds", g_handed,
+                R.grass_series(cp["HUMAN_INEDIBLE_FEED_BASELINE_MONTHLY"], [cp["RATIO_GRASSES_YEAR%d" % i] for i in range(1, 11)], n), case)
+    if not handed:
+        ctx.event("no_herd_simulation_in_first_round")
     compare(ctx, "grass", grass, R.grass_series(cp["HUMAN_INEDIBLE_FEED_BASELINE_MONTHLY"], [cp["RATIO_GRASSES_YEAR%d" % i] for i in range(1, 11)], n), case)
     if "GRASSES_PRODUCTION_MULTIPLIER" in options:
         # scaling grass production by a factor scales the whole series by that factor (same run without the override x factor)
